@@ -154,6 +154,11 @@ def family_case(task):
     N, bx, r, eps, kind, par = task["N"], task["box"], task["r"], task["eps"], task["kind"], task["par"]
     m = task.get("density") or 10
     f, L, fstar = family(kind, par, N)
+    if task.get("affine"):
+        # the same objective on another value domain: a * f + b (a > 0) has Lipschitz constant a * L and minimum a * f* + b
+        a_, b_ = task["affine"]
+        f0 = f
+        f, L, fstar = (lambda u: a_ * f0(u) + b_), a_ * L, a_ * fstar + b_
     try:
         run, sol, order = solve_case(N, bx, r, eps, f, task.get("density"), task.get("pre", 0), task.get("coarse"),
                                       task.get("holder"))
@@ -255,6 +260,15 @@ def plan_families(ctx):
         for eps, m in ((1e-4, None), (2e-5, None), (3e-3, 8), (3e-3, 6), (1e-4, 14)) if th else ((1e-4, None), (3e-3, 6)):
             for L, r in ((1.0, 2.0), (3.0, 3.5)):
                 tasks.append(dict(N=1, box="B1", r=r, eps=eps, kind="zig", par=[list(slopes), L], density=m))
+    # other value domains: everything below -1, offsets of 1e6 (both signs), amplitudes of 1e-3 and 1e4
+    for slopes in itertools.product((-1, 0, 1), repeat=5):
+        for aff in ((1.0, -7.0), (1.0, 1e6), (1.0, -1e6), (1e-3, 0.0), (1e4, -3.0)) if th else ((1.0, -7.0), (1.0, -1e6), (1e4, -3.0)):
+            for L, r in ((1.0, 2.0), (3.0, 3.5)) if th else ((3.0, 3.5),):
+                tasks.append(dict(N=1, box="B1", r=r, eps=0.01, kind="zig", par=[list(slopes), L], affine=list(aff)))
+    for c in ((0.0, 0.0), (1.0 / 3.0, 1.0), (0.5, 0.5), (1.0, 0.2)):
+        for aff in ((1.0, -7.0), (1.0, -1e6), (1e4, -3.0), (1e-3, 0.0)):
+            for r in (2.0 * K(2) * 0.5, 4.0, 16.0):
+                tasks.append(dict(N=2, box="B2", r=r, eps=0.05, kind="cone", par=[[[0.0, 0.5, list(c)]], 2], affine=list(aff)))
     # a user Problem that returns a new value holder; integer-typed bounds
     for slopes in itertools.product((-1, 0, 1), repeat=5):
         for L, r in ((1.0, 2.0), (3.0, 3.5)):
